@@ -90,7 +90,7 @@ class Program:
         self.impl_of = {}         # body name -> impl info
         self.const_cache = {}
         for name, b in bodies.items():
-            base = name.split('#')[0]
+            base = name.split('~')[0]
             segs = self._segments(base)
             self.by_last.setdefault(segs[-1], []).append(b)
             m = _IMPL_AT.search(base)
@@ -145,7 +145,7 @@ class Program:
             out = []
             for b in cands:
                 info = self.impl_of.get(b.name)
-                bsegs = self._segments(b.name.split('#')[0])
+                bsegs = self._segments(b.name.split('~')[0])
                 if info and info['self_ty'] == self_last and info['trait'] == trait_last and bsegs[-len(segs) + 1:] == segs[1:]:
                     out.append(b)
             if len(out) == 1:
@@ -157,7 +157,7 @@ class Program:
         out = []
         owner = segs[-2] if len(segs) >= 2 else None
         for b in cands:
-            base = b.name.split('#')[0]
+            base = b.name.split('~')[0]
             bsegs = self._segments(strip_generics(base))
             info = self.impl_of.get(b.name)
             if info:
@@ -186,7 +186,7 @@ class Program:
         if len(inh) == 1:
             return inh[0]
         # identical duplicates (#2 suffix) -- e.g. callsite statics -- pick the first
-        names = {b.name.split('#')[0] for b in out}
+        names = {b.name.split('~')[0] for b in out}
         if len(names) == 1:
             return out[0]
         raise Unmodelled('ambiguous callee %s: %s' % (text, [b.name for b in out][:4]))
@@ -310,6 +310,10 @@ class Interp:
         self.override = []        # (regex, fn) property-specific call overrides
         self.seed = 0
         self.feas_timeout_ms = 5000
+        self.merge_pure = True
+        self.event_mode = False
+        self.cur_tid = 0
+        self.objinfo = {}
 
     # ------------------------------------------------------------------ scalars
     def mk_int(self, v, ty):
@@ -800,11 +804,11 @@ class Interp:
         # own promoted
         m = re.search(r'::promoted\[(\d+)\]$', canon)
         if m and fr is not None:
-            name = fr.body.name.split('#')[0] + '::promoted[%s]' % m.group(1)
-            cands = [b for n, b in self.prog.bodies.items() if n.split('#')[0] == name]
+            name = fr.body.name.split('~')[0] + '::promoted[%s]' % m.group(1)
+            cands = [b for n, b in self.prog.bodies.items() if n.split('~')[0] == name]
             # duplicates with #k suffix belong to duplicate bodies (same name); pick by owner identity
-            if fr.body.name.find('#') >= 0:
-                suffix = fr.body.name[fr.body.name.find('#'):]
+            if fr.body.name.find('~') >= 0:
+                suffix = fr.body.name[fr.body.name.find('~'):]
                 c2 = [b for b in cands if b.name.endswith(suffix)]
                 cands = c2 or cands
             if cands:
@@ -821,7 +825,7 @@ class Interp:
         cands = []
         for b in self.prog.by_last.get(segs[-1], []):
             if b.kind in ('const',):
-                bsegs = Program._segments(strip_generics(b.name.split('#')[0]))
+                bsegs = Program._segments(strip_generics(b.name.split('~')[0]))
                 if _suffix(bsegs, segs) or _suffix(segs, bsegs):
                     cands.append(b)
                 else:
@@ -1207,7 +1211,11 @@ class Interp:
         body = self.prog.find_fn(func_text)
         if body is not None:
             self.stats['calls_inlined'].add(body.name)
-            return self.run_body(st, body, args)
+            if not self.merge_pure:
+                return self.run_body(st, body, args)
+            snap = (len(st.pc), len(st.trace), dict(st.cells), dict(st.objs), dict(st.ghost))
+            outs = self.run_body(st, body, args)
+            return self.try_merge(snap, outs)
         for rx, fn, label in self.models:
             if rx.search(canon) or rx.search(func_text):
                 self.stats['models_used'].add(label)
@@ -1219,6 +1227,126 @@ class Interp:
                 self.stats['allow_used'].add(rx.pattern)
                 return [Outcome(st, 'ret', Opaque('allow:' + canon[:40]))]
         raise Unmodelled('call ' + func_text + ((' in ' + fr.body.name) if fr else ''))
+
+    def try_merge(self, snap, outs):
+        """state merging at call return. Outcomes that performed the same events (identical Event objects / trace entries),
+        left memory in structurally identical shape and return structurally identical values are joined into one outcome whose
+        path condition is the disjunction of the joined suffixes. Pure calls that only differ in a scalar / field-less enum
+        result are joined with an if-then-else value. Keeps thread trees and path counts small; loses nothing (the disjunction is
+        exactly the union of the joined paths)."""
+        if len(outs) < 2:
+            return outs
+        npc, ntr, cells, objs, ghost = snap
+        groups = {}
+        order = []
+        for o in outs:
+            try:
+                key = (o.kind, tuple(id(e[1]) if e[0] == 'EV' else val_key(e) for e in o.st.trace[ntr:]),
+                       tuple((c, val_key(o.st.cells.get(c))) for c in cells if o.st.cells.get(c) is not cells[c]),
+                       tuple((k, val_key(v)) for k, v in sorted(o.st.objs.items(), key=lambda kv: str(kv[0])) if objs.get(k) is not v),
+                       tuple(sorted((str(k), val_key(v)) for k, v in o.st.ghost.items() if ghost.get(k) is not v)))
+            except Unmodelled:
+                key = ('nomerge', id(o))
+            if key not in groups:
+                groups[key] = []
+                order.append(key)
+            groups[key].append(o)
+        res = []
+        for key in order:
+            g = groups[key]
+            if len(g) == 1 or key[0] == 'nomerge':
+                res.extend(g)
+                continue
+            # only the part of the path condition added after the last event of the callee may be joined: earlier entries are
+            # shared by construction and are indexed by the events' recorded pc lengths
+            base = npc
+            for e in g[0].st.trace[ntr:]:
+                if e[0] == 'EV':
+                    base = max(base, e[2])
+            if any(len(o.st.pc) < base or any(a is not b for a, b in zip(o.st.pc[npc:base], g[0].st.pc[npc:base])) for o in g):
+                res.extend(g)
+                continue
+            merged_val = self._merge_values([o.val for o in g], [self._suffix(o, base) for o in g])
+            if merged_val is None:
+                # same effects but values that cannot be joined: keep separate
+                sub = {}
+                for o in g:
+                    try:
+                        vk = val_key(o.val)
+                    except Unmodelled:
+                        vk = id(o)
+                    sub.setdefault(vk, []).append(o)
+                for vk, gg in sub.items():
+                    if len(gg) == 1:
+                        res.extend(gg)
+                    else:
+                        st = gg[0].st
+                        cond = z3.Or([self._suffix(o, base) for o in gg])
+                        del st.pc[base:]
+                        st.pc.append(z3.simplify(cond))
+                        self.stats['merged_calls'] = self.stats.get('merged_calls', 0) + 1
+                        res.append(Outcome(st, gg[0].kind, gg[0].val))
+                continue
+            st = g[0].st
+            cond = z3.simplify(z3.Or([self._suffix(o, base) for o in g]))
+            del st.pc[base:]
+            if not z3.is_true(cond):
+                st.pc.append(cond)
+            self.stats['merged_calls'] = self.stats.get('merged_calls', 0) + 1
+            res.append(Outcome(st, g[0].kind, merged_val))
+        return res
+
+    @staticmethod
+    def _suffix(o, npc):
+        return z3.And(o.st.pc[npc:]) if len(o.st.pc) > npc else z3.BoolVal(True)
+
+    def _merge_values(self, vals, conds):
+        v0 = vals[0]
+        try:
+            k0 = val_key(v0)
+            if all(val_key(v) == k0 for v in vals[1:]):
+                return v0
+        except Unmodelled:
+            return None
+        if all(isinstance(v, Sc) and v.ty == v0.ty for v in vals):
+            t = vals[-1].t
+            for c, v in zip(reversed(conds[:-1]), reversed(vals[:-1])):
+                t = z3.If(c, v.t, t)
+            return Sc(t, v0.ty)
+        if all(isinstance(v, z3.BoolRef) for v in vals):
+            t = vals[-1]
+            for c, v in zip(reversed(conds[:-1]), reversed(vals[:-1])):
+                t = z3.If(c, v, t)
+            return t
+        if all(isinstance(v, Enum) and not v.fields and v.ty == v0.ty and v.discr is not None for v in vals) and self.enum_def(v0.ty or ''):
+            t = self.mk_int(vals[-1].discr, 'isize').t
+            for c, v in zip(reversed(conds[:-1]), reversed(vals[:-1])):
+                t = z3.If(c, self.mk_int(v.discr, 'isize').t, t)
+            return SymEnum(v0.ty, Sc(t, 'isize'))
+        return None
+
+    def shared_op(self, st, obj, opname, op, res_sorts, label=None, free=None, info=None):
+        """operation on a modelled shared object: executes on State.objs (sequential mode) or emits an event whose results are
+        fresh variables (event mode, see conc.py)"""
+        if self.event_mode:
+            from conc import Event
+            res = {}
+            for k, srt in res_sorts.items():
+                nm = 'r%d_%s' % (fresh_id(), k)
+                res[k] = z3.Bool(nm) if srt == 'bool' else z3.BitVec(nm, srt)
+            ev = Event(obj.oid, opname, op, res, label or opname, free, info)
+            st.trace.append(('EV', ev, len(st.pc)))
+            return res
+        state = st.objs[obj.oid]
+        enabled, ns, res = op(state)
+        en = z3.simplify(enabled)
+        if not z3.is_true(en):
+            if z3.is_false(en) or not self.feasible(st, en):
+                raise Inconclusive('sequential run blocks forever on %s.%s' % (obj, opname))
+            st.assume(en)
+        st.objs[obj.oid] = {k: (z3.simplify(v) if isinstance(v, z3.ExprRef) else v) for k, v in ns.items()}
+        st.emit('OP', obj.oid, opname)
+        return {k: z3.simplify(res[k]) for k in res_sorts}
 
     def call_value(self, st, callee, args, fr=None):
         """call through a closure value / fn item"""
@@ -1292,7 +1420,10 @@ class Interp:
             if tyname and tyname in self.prog.drop_impls:
                 b = self.prog.drop_impls[tyname]
                 self.stats['calls_inlined'].add(b.name)
+                snap = (len(st.pc), len(st.trace), dict(st.cells), dict(st.objs), dict(st.ghost))
                 outs = self.run_body(st, b, [Ref(ref.cell, ref.path, True)])
+                if self.merge_pure:
+                    outs = self.try_merge(snap, outs)
             final = []
             for o in outs:
                 if o.kind != 'ret':
@@ -1335,6 +1466,43 @@ class Interp:
 
     def ret(self, st, v=UNIT):
         return [Outcome(st, 'ret', v)]
+
+
+def val_key(v):
+    """hashable structural identity of a value"""
+    if v is None or isinstance(v, (int, str, bool)):
+        return v
+    if isinstance(v, z3.ExprRef):
+        return ('z', v.get_id())
+    if isinstance(v, Sc):
+        return ('sc', v.ty, v.t.get_id())
+    if isinstance(v, Agg):
+        return ('agg', v.ty, tuple(val_key(f) for f in v.fields))
+    if isinstance(v, Enum):
+        return ('enum', v.ty, v.variant, tuple(val_key(f) for f in v.fields))
+    if isinstance(v, SymEnum):
+        return ('symenum', v.ty, v.discr.t.get_id())
+    if isinstance(v, Ref):
+        return ('ref', v.cell, v.path)
+    if isinstance(v, BoxV):
+        return ('box', v.cell)
+    if isinstance(v, Opaque):
+        return ('opq', v.ident)
+    if isinstance(v, Obj):
+        return ('obj', v.oid)
+    if isinstance(v, Str):
+        return ('str', v.s)
+    if isinstance(v, FnItem):
+        return ('fn', v.path)
+    if isinstance(v, Uninit):
+        return ('uninit',)
+    if isinstance(v, Coro):
+        return ('coro', v.cid, v.state, tuple(val_key(f) for f in v.upvars), tuple(sorted((str(k), val_key(x)) for k, x in v.saved.items())))
+    if isinstance(v, tuple):
+        return tuple(val_key(x) for x in v)
+    if isinstance(v, dict):
+        return tuple(sorted((str(k), val_key(x)) for k, x in v.items()))
+    raise Unmodelled('val_key of %r' % (v,))
 
 
 def _unescape(s):
